@@ -98,8 +98,12 @@ def main():
     units = [(name, scripts1, p) for name, _ in lib.modules()] + [('__doctests__',)]
     shards = chk.drive(units, worker)
     extra = run.merge_extra(shards)
-    rej = chk.validate('Trace_Api', shards, own_clauses=OWN)
-    chk.report(rej)
+    rej = chk.validate('Trace_Api', shards, own_clauses=OWN | {'S1x'})
+    # S1x (foreign characters other than the national letters in the three excepted formats) goes beyond the letter of the
+    # property: recorded as observations in the evidence, never as violations
+    obs = [r for r in rej if r['clause'] == 'S1x']
+    chk.report([r for r in rej if r['clause'] != 'S1x'])
+    chk.cov['observations_S1x_excepted_formats'] = sorted(set('%s %r' % (r['meta'].get('m'), r['meta'].get('w')) for r in obs))[:40]
     return chk.finish(samples=first_meta(shards), distinct_nontrivial=extra.get('accepted', 0),
                       rule='one validate() per (module, base, position, foreign character): same-valued foreign digits (every Nd/No/Nl code '
                            'point outside the clean-up table in thorough, a seeded sample in quick), look-alike letters of each class; '
